@@ -53,6 +53,15 @@ def run(ctx):
                 cases.append(textgen.pipe(text, flags=flags, salt=base["salt"], words=c12.WORDS if "w" in sub else None, asnums=base["asnums"] if "n" in sub else None, reserved=base["reserved"],
                                           pfx=base["pfx"], nets=base["nets"], b4=base["b4"], b6=base["b6"]))
                 metas.append((sub, base, text))
+    # directed texts: an AS number touching a dot / equal to an address octet; a secret equal to the lower-cased form of a user reserved word
+    directed = ["router bgp 65001.\n", "neighbor 10.65001.1.1 remote-as 0.65001\n", "ip route 64512.0.0.0 10.64512.0.1 AS 64512.\n", "peer 65001.2.3.4 65001\n", " description AS65001.seattle-core.\n",
+                "snmp-server community labcore RO\n", "username LabCore password labcore\n", "hostname LabCore seattle labcore\n", "enable password seattle-core\n"]
+    for sub in subsets:
+        for ipflag in (["a"] if "a" not in sub else ["a", "u"]):
+            base = dict(salt="s", words=c12.WORDS + ["lab"], asnums=c12.ASNUMS + ["10", "65001"], pfx="-", nets="-", b4=8, b6=8, ipflag=ipflag, reserved=["LabCore", "Seattle-core"])
+            flags = ("p" if "p" in sub else "") + (ipflag if "a" in sub else "")
+            cases.append(textgen.pipe(directed, flags=flags, salt="s", words=base["words"] if "w" in sub else None, asnums=base["asnums"] if "n" in sub else None, reserved=base["reserved"]))
+            metas.append((sub, base, directed))
     def project(c, o):
         """does the combined run complete (what decides C15 is, on each side separately, combined run == chain of single-feature runs)"""
         return "RAISED" if o.startswith("RAISED") else "completed"
@@ -73,7 +82,50 @@ def run(ctx):
                 ctx.disagreements.append({"case": c[:11], "label": "model: combined != chain", "model": str(gotm)[:300], "impl": str(expm)[:300]})
         if len(sub) >= 2:
             nt += 1
-    ctx.evaluations = len(cases) * 2
+    n_cli = command_line_subsets(ctx, rng)
+    ctx.evaluations = len(cases) * 2 + n_cli
     ctx.distinct_nontrivial = nt
     ctx.search_stats = {"cases": len(cases), "subsets": len(subsets)}
     ctx.samples = [dict(textgen.sample(cases[7], i[7], 0), features=metas[7][0])]
+
+
+def command_line_subsets(ctx, rng):
+    """through the real command line: options given together = the same options given in consecutive runs (secrets, then addresses, then words, then AS numbers), also with --undo"""
+    import base64
+    import json
+    text = ("hostname edge1\nusername admin password hunter2secret\nsnmp-server community FreshComm RO\nip address 11.22.33.44 255.255.255.0\nipv6 address 2001:db8::5/64\n"
+            "router bgp 65001\n description uplink seattle\nset system tacplus-server 9.9.9.9 secret \"%s\"\n" % textgen.ref_encrypt9("hunter2", "Q"))
+    def cli(opts, content):
+        o = dict(opts, single="r.cfg")
+        out = vlib.run_impl([["files", "main", json.dumps(o), json.dumps([["r.cfg", base64.b64encode(content.encode()).decode(), {}]])]])[0]
+        try:
+            r = json.loads(out)
+            return None if r["raised"] else r["out"].get("r.cfg")
+        except Exception:
+            return None
+    n = 0
+    common = {"salt": "s", "hostbits": 8}
+    for feats in (["pwd", "undo"], ["pwd", "ip"], ["pwd", "ip", "words"], ["ip", "asnums"], ["pwd", "undo", "words", "asnums"]):
+        def opt(fs):
+            o = dict(common)
+            for f in fs:
+                if f == "pwd":
+                    o["pwd"] = True
+                elif f == "ip":
+                    o["ip"] = True
+                elif f == "undo":
+                    o["undo"] = True
+                elif f == "words":
+                    o["words"] = ["seattle"]
+                elif f == "asnums":
+                    o["asnums"] = ["65001"]
+            return o
+        combined = cli(opt(feats), text)
+        cur = text
+        for f in feats:
+            cur = cli(opt([f]), cur) if cur is not None else None
+        n += 1
+        if combined is None or cur is None or combined != cur:
+            ctx.fail("command line: options %s given together differ from the same options given in consecutive runs" % feats, {"options": feats, "text": text},
+                     (combined or "<no output>")[:300], (cur or "<no output>")[:300], label="impl-cli")
+    return n
